@@ -25,8 +25,6 @@
 
 #include <iora/core/logger.hpp>
 
-#include <sys/resource.h>
-
 #include <algorithm>
 #include <atomic>
 #include <deque>
@@ -515,7 +513,7 @@ enum Target
   TTlsStall,     // TCP only: TLS client connect to a raw peer that never answers (handshakeTimeout)
   TUnreachable,  // 255.255.255.255: connect() fails synchronously with ENETUNREACH inside doConnect
   TTlsServerMode,// connect(..., TlsMode::Server): never valid for an outbound connection - must fail closed
-  TFdExhausted,  // RLIMIT_NOFILE lowered while the connect is processed: socket() fails (EMFILE)
+  TFdExhausted,  // retired (see newConnect): behaves like TUnreachable
   kTargetMax
 };
 const char *targetName(int t)
@@ -837,6 +835,11 @@ void runLifecycle(const LPlan &plan, pbt::Case &c)
   auto newConnect = [&](int target, bool sync, bool via, bool waitAnnounce, int sharePeer = -1)
   {
     if (sess.size() >= 8) return;
+    // Descriptor exhaustion (RLIMIT_NOFILE lowered around the connect) was tried and REMOVED: UBSan's
+    // vptr check probes memory with pipe(); with no descriptors left it reports "invalid vptr" for
+    // perfectly good objects (seen in connectSync's make_shared) - a false sanitizer report. The
+    // target value is kept for replay compatibility and behaves like `unreachable`.
+    if (target == TFdExhausted) target = TUnreachable;
     Sess s;
     s.origin = via ? 'V' : sync ? 'S' : 'C';
     s.target = target;
@@ -959,30 +962,6 @@ void runLifecycle(const LPlan &plan, pbt::Case &c)
                       std::to_string(ms) + " ms: the attempt was not failed by a terminal close");
         bail = true;
       }
-    }
-    else if (target == TFdExhausted)
-    {
-      // no descriptor can be created while the I/O thread processes this connect: socket() -> EMFILE
-      rlimit old{};
-      ::getrlimit(RLIMIT_NOFILE, &old);
-      rlimit lo = old;
-      lo.rlim_cur = 3;
-      ::setrlimit(RLIMIT_NOFILE, &lo);
-      r = t->connect(host, port, TlsMode::None);
-      bool closedInWindow = r.isOk() && log.hasClose(r.value(), 2000);
-      ::setrlimit(RLIMIT_NOFILE, &old);
-      if (r.isOk())
-      {
-        s.sid = r.value();
-        s.sidKnown = true;
-        log.add(K::Returned, s.sid);
-        // definite only if the failure was seen inside the window (otherwise the connect may have
-        // been processed after the limit was restored and simply succeeded)
-        if (closedInWindow) issueCause(s, Cause::FdExhausted, true);
-        else c.label("fd-exhausted: connect processed outside the window");
-        sess.push_back(s);
-      }
-      return;
     }
     else
       r = t->connect(host, port, tlsMode);
